@@ -2,6 +2,7 @@
 import sympy as sp
 
 from ..facts import AnalysisBroken, walk, strip_targs
+from ..cfg import must_dataflow
 from ..pp import pp, skip, canon_text as CT
 from ..util import (args, assignment, callee, incdec, is_call, obj, strip_not, literal_value, find_var, parameter_name, writes_in,
                     root_of, unwrap_view)
@@ -501,6 +502,219 @@ def rule_ellipsoid_update(F, R):
     R.check(bool(z3), "R-C03-9", "ellipsoid cut depth", f.loc(alpha[0]), "a = (f(x) - f_best) / sqrt(g'Hg)", "cut depth is %s %s" % (a_def, w3))
 
 
+# ------------------------------------------------------------------------------------------------ R-C03-10 multipliers are fresh when consumed
+
+STEP_STATUSES = ("descent_step", "cutting_plane_step", "null_step")
+
+
+def bundle_summaries(F):
+    """per bundle_t method: (needs, effect) - `needs`: the method reads the multipliers m_alphas before (re)computing them; effect in
+    {'keep', 'valid', 'invalid'}: what it leaves behind. Derived from the bodies in source order (branch-insensitive: "on some path"):
+    a write in solve() makes them valid (the QP solution), a write anywhere else clobbers them (delete_largest reuses the buffer for the sorted
+    errors), `.size()` and the structural compaction in remove_if are neutral."""
+    ms = {}
+    for f in F.functions.values():
+        if f.cls == "nano::bundle_t" and f.body is not None and not f.is_lambda:
+            ms.setdefault(f.qn + "/%d" % len(f.params), f)
+    memo = {}
+
+    def events(f):
+        out = []
+        bodies = [f] + [g for _, g in F.lambdas_in(f)]
+        lhs_ids = set()
+        for h in bodies:
+            for x in h.nodes():
+                a = assignment(x)
+                if a:
+                    for y in walk(a[0]):
+                        lhs_ids.add(y["i"])
+        for h in bodies:
+            for x in h.nodes():
+                if x["k"] == "mem" and x.get("n") == "m_alphas":
+                    anc = list(h.ancestors(x))
+                    par = anc[0] if anc else None
+                    if par is not None and par["k"] == "call" and callee(par).split("::")[-1] == "size":
+                        continue
+                    if any(a_["k"] == "call" and callee(a_).split("::")[-1] == "remove_if" for a_ in anc):
+                        continue
+                    if any(a_["k"] == "call" and callee(a_) == "std::nth_element" for a_ in anc) or x["i"] in lhs_ids:
+                        out.append((x["l"], x["i"], "W"))
+                    else:
+                        out.append((x["l"], x["i"], "R"))
+                elif x["k"] == "call" and h is f:
+                    cq = callee(x)
+                    if cq.startswith("nano::bundle_t::") and not x.get("static"):
+                        out.append((x["l"], x["i"], ("C", cq + "/%d" % len(args(x)))))
+        # an assignment's right-hand side is evaluated before the store: order reads before writes on the same line
+        return sorted(out, key=lambda e: (e[0], 0 if e[2] == "R" else 1, e[1]))
+
+    def summary(key, depth=0):
+        if key in memo:
+            return memo[key]
+        f = ms.get(key)
+        if f is None or depth > 8:
+            return (False, "keep")
+        memo[key] = (False, "keep")
+        producer = f.name == "solve"
+        needs, st = False, "entry"
+        for _, _, ev in events(f):
+            if ev == "R":
+                needs = needs or st == "entry"
+            elif ev == "W":
+                st = "valid" if producer else "invalid"
+            else:
+                n2, e2 = summary(ev[1], depth + 1)
+                needs = needs or (n2 and st == "entry")
+                if e2 != "keep":
+                    st = e2
+        memo[key] = (needs and not producer, {"entry": "keep"}.get(st, st))
+        return memo[key]
+    for k in list(ms):
+        summary(k)
+    return ms, memo
+
+
+def rule_bundle_protocol(F, R):
+    """R-C03-10: bundle_t::m_alphas holds the QP multipliers only between solve() and the next bundle update (append / moveto drop inactive cuts
+    and build the aggregate cut from them, then delete_largest reuses the buffer). Clients must therefore solve between two updates: in the
+    curve search every step status is decided after bundle.solve(), and in RQB / FPBA every consumer of the multipliers is reached only on a
+    `status == <step status>` edge of a fresh search result (or after solve) with no update in between."""
+    ms, summ = bundle_summaries(F)
+    want = {"moveto": (True, "invalid"), "append": (True, "invalid"), "solve": (False, "valid"), "smeared_s": (True, "keep"), "smeared_e": (True, "keep")}
+    for name, w in sorted(want.items()):
+        got = {v for k, v in summ.items() if k.split("/")[0] == "nano::bundle_t::" + name and (name != "append" or k.endswith("/3"))}
+        if got != {w}:
+            R.incomplete("R-C03-10", "bundle_t::%s summary" % name, "src/solver/bundle.cpp:1", "derived (needs multipliers, leaves them) = %s, the protocol the rule was written for is %s" % (sorted(got), w))
+            return
+    R.ok("R-C03-10", "bundle_t summaries", "src/solver/bundle.cpp:1", "append/moveto consume the multipliers and clobber them, solve recomputes them (%d methods summarised)" % len(summ))
+
+    def needs(c):
+        return summ.get(callee(c) + "/%d" % len(args(c)), (False, "keep"))
+    # (1) the curve search decides every step status after solving
+    f = F.one("nano::csearch_t::search", "src/solver/csearch.cpp")
+    cfg = f.cfg
+    solves = [e for e in cfg.elems() if e.kind == "node" and e.node["k"] == "call" and callee(e.node) == "nano::bundle_t::solve"]
+    clob = [e for e in cfg.elems() if e.kind == "node" and e.node["k"] == "call" and callee(e.node).startswith("nano::bundle_t::") and needs(e.node)[1] == "invalid"]
+    nst = 0
+    for x in f.nodes():
+        a = assignment(x)
+        if a and any(pp(a[1]).endswith("csearch_status::" + s_) for s_ in STEP_STATUSES):
+            nst += 1
+            w = cfg.where_enclosing(x)
+            ok = bool(solves) and not clob and any(cfg.dominates((e.block, e.pos), w) for e in solves)
+            R.check(ok, "R-C03-10", "search status@%d" % x["l"], f.loc(x), "the step status %s is decided after bundle.solve() in the same call" % pp(a[1]).split("::")[-1],
+                    "csearch_t::search can return the step status %s without having solved the bundle's QP in this call" % pp(a[1]).split("::")[-1])
+    R.floor("R-C03-10/search", nst, 3, "step-status assignments in csearch_t::search")
+    # (2) clients
+    nsite = 0
+    def client(g):
+        return g.body is not None and g.relfile.startswith("src/solver/") and g.cls not in ("nano::bundle_t", "nano::csearch_t") and \
+            not (g.is_lambda and any(k_ in (g.parent or "") for k_ in ("nano::bundle_t::", "nano::csearch_t::")))
+    clients = [g for g in F.functions.values() if client(g) and
+               any(c["k"] == "call" and callee(c).startswith("nano::bundle_t::") and callee(c).split("::")[-1] in ("moveto", "append", "solve", "smeared_s", "smeared_e") or
+                   c["k"] == "call" and callee(c) == "nano::csearch_t::search" for c in g.nodes())]
+    lam_of = {}
+    for g in F.functions.values():
+        if client(g):
+            for lam, h in F.lambdas_in(g):
+                par = g.parent_of(lam)
+                while par is not None and par["k"] not in ("var",):
+                    par = g.parent_of(par)
+                if par is not None:
+                    lam_of[par["d"]] = h
+    lam_summ = {}
+
+    def analyse(g, entry_valid, report):
+        cfg = g.cfg
+        status_vars = set()
+        for v in g.nodes():
+            if v["k"] == "var" and v.get("bindings") and v.get("c") and any(y["k"] == "call" and callee(y) == "nano::csearch_t::search" for y in walk(v["c"][0])):
+                for b in v["bindings"]:
+                    status_vars.add(b["d"])
+
+        def telem(facts, e):
+            if e.kind != "node" or e.node["k"] != "call":
+                return
+            c = e.node
+            cq = callee(c)
+            if cq == "nano::csearch_t::search":
+                facts.add("F")
+                facts.discard("V")
+                return
+            if cq.startswith("nano::bundle_t::"):
+                eff = needs(c)[1]
+                if eff == "valid":
+                    facts.add("V")
+                elif eff == "invalid":
+                    facts.discard("V")
+                    facts.discard("F")
+                return
+            if c.get("op") == "()" and c.get("c") and skip(c["c"][0])["k"] == "ref" and skip(c["c"][0]).get("d") in lam_of:
+                h = lam_of[skip(c["c"][0])["d"]]
+                s_ = lam_summ.get(id(h))
+                if s_ and not s_[1]:
+                    facts.discard("V")
+                    facts.discard("F")
+
+        def tedge(facts, b, k):
+            if b.cond is None or len(b.succ) != 2 or k != 0:
+                return
+            c = skip(b.cond)
+            if c["k"] in ("bin", "call") and c.get("op") == "==" and "F" in facts:
+                sides = [skip(x_) for x_ in c["c"][-2:]]
+                txt = [pp(x_) for x_ in sides]
+                if any(t_.endswith("csearch_status::" + s_) for t_ in txt for s_ in STEP_STATUSES) and any(y["k"] == "ref" and y.get("d") in status_vars for x_ in sides for y in walk(x_)):
+                    facts.add("V")
+        IN, before = must_dataflow(cfg, {"V"} if entry_valid else set(), telem, tedge)
+        count = 0
+        for e in cfg.elems():
+            if e.kind != "node" or e.node["k"] != "call":
+                continue
+            c = e.node
+            need = False
+            what = None
+            if callee(c).startswith("nano::bundle_t::"):
+                need, what = needs(c)[0], callee(c).split("::")[-1]
+            elif c.get("op") == "()" and c.get("c") and skip(c["c"][0])["k"] == "ref" and skip(c["c"][0]).get("d") in lam_of:
+                s_ = lam_summ.get(id(lam_of[skip(c["c"][0])["d"]]))
+                need, what = bool(s_ and s_[0]), "%s (a lambda that updates the bundle)" % skip(c["c"][0])["n"]
+            if not need:
+                continue
+            facts = before(e.block, e.pos)
+            if facts is None:
+                continue
+            count += 1
+            if report:
+                R.check("V" in facts, "R-C03-10", "%s %s@%d" % (("lambda in " + (g.parent or "?").split("(")[0].split("::")[-2].split("<")[0]) if g.is_lambda else g.qn.split("::")[-2] if "::" in g.qn else g.qn, what.split(" ")[0], c["l"]), g.loc(c),
+                        "the multipliers consumed here are those of a QP solved since the last bundle update",
+                        "`%s` consumes the bundle's multipliers (inactive cuts are dropped and the aggregate cut is built from m_alphas), but on some path the bundle was updated since "
+                        "the last solve(): delete_largest left the sorted linearisation errors in that buffer, the aggregate is no longer a lower bound of f and the search can report "
+                        "`converged` at a non-optimal point" % pp(c)[:60])
+        # exit facts: intersection over the blocks that leave the function
+        exits = [IN[b] for b in cfg.blocks if IN[b] is not None and not [s_ for s_ in cfg.blocks[b].succ if s_ >= 0]]
+        outs = []
+        for b in cfg.blocks:
+            if IN[b] is None or [s_ for s_ in cfg.blocks[b].succ if s_ >= 0]:
+                continue
+            cur = before(b, 10 ** 9)
+            outs.append("V" in cur)
+        return count, (all(outs) if outs else True)
+    # lambdas first (entry assumed valid; whether they need it = they contain a consumer reached without a solve of their own)
+    for d_, h in lam_of.items():
+        if not any(c["k"] == "call" and callee(c).startswith("nano::bundle_t::") for c in h.nodes()):
+            continue
+        lam_summ[id(h)] = (False, True)
+        cnt, exit_valid = analyse(h, True, True)        # checked under the assumption that its callers establish validity (required at each call)
+        nsite += cnt
+        lam_summ[id(h)] = (True, exit_valid)
+    for g in clients:
+        if g.is_lambda:
+            continue
+        cnt, _ = analyse(g, False, True)
+        nsite += cnt
+    R.floor("R-C03-10/clients", nsite, 6, "consumers of the multipliers in RQB / FPBA")
+
+
 def run(ctx):
     R = ctx.report
     F = ctx.facts(TUS)
@@ -513,3 +727,4 @@ def run(ctx):
     rule_capacity(F, R)
     rule_ellipsoid(F, R)
     rule_ellipsoid_update(F, R)
+    rule_bundle_protocol(F, R)
